@@ -239,6 +239,12 @@ where
         self.inner.2.borrow().len_outbound() + self.inner.2.borrow().len_inbound()
     }
 
+    /// Number of edges stored as outbound at this node, i.e. the edges created
+    /// by calling `connect` on this node. `iter()` yields them first.
+    pub(crate) fn outbound_len(&self) -> usize {
+        self.inner.2.borrow().len_outbound()
+    }
+
     /// Connects this node to another node. The connection is created in both
     /// directions. The connection is created with the given edge value and
     /// defaults to `()`. This function allows for creating multiple
